@@ -419,8 +419,33 @@ func c05Tasks(c *Ctx, prune *ssa.Function) {
 	c.Check(okOrder, "R3", "join-before-prunable", p.InstrPos(waitInstr), "tasks joined, retained set complete, errors checked — before the prunable set is computed", "prune does not join the retention tasks, drain the retained/error channels and check errors before computing the prunable set: "+joined)
 
 	// (f) skip conditions of task starts
-	allowedGuard := func(cond ssa.Value) bool {
+	var allowedGuard func(cond ssa.Value) bool
+	allowedGuard = func(cond ssa.Value) bool {
 		switch x := cond.(type) {
+		case *ssa.Phi:
+			// a compound condition folded into a flag (`isNew := retain && set.Add(sha)`): every operand, and the
+			// test behind every constant edge, must itself be a documented condition
+			for i, e := range x.Edges {
+				if _, isC := ConstBool(e); isC {
+					if i >= len(x.Block().Preds) {
+						return false
+					}
+					pif, ok := lastInstr(x.Block().Preds[i]).(*ssa.If)
+					if !ok {
+						return false
+					}
+					pc, _ := stripNot(pif.Cond)
+					if pc == ssa.Value(x) || !allowedGuard(pc) {
+						return false
+					}
+					continue
+				}
+				ec, _ := stripNot(e)
+				if ec == ssa.Value(x) || !allowedGuard(ec) {
+					return false
+				}
+			}
+			return len(x.Edges) > 0
 		case *ssa.BinOp:
 			if _, f, _, ok := FieldOf(x.X); ok && nameIn(f, []string{"FetchRecentRefsDays", "FetchRecentCommitsDays"}) {
 				if k, isK := ConstInt(x.Y); isK && k == 0 && (x.Op == token.GTR || x.Op == token.LEQ) {
